@@ -17,7 +17,7 @@ def main():
     props_opt = [a.split("=", 1)[1].split(",") for a in sys.argv[1:] if a.startswith("--props=")]
     allprops = "--all" in sys.argv
     have = set(os.path.splitext(os.path.basename(p))[0] for p in glob.glob(os.path.join(V, "props", "C??.py")))
-    res_path = os.path.join(V, "seeded", "RESULTS.json")
+    res_path = os.environ.get("RESULTS_PATH") or os.path.join(V, "seeded", "RESULTS.json")  # shards write their own file; merged afterwards
     results = json.load(open(res_path)) if os.path.exists(res_path) else {}
     st = subprocess.run("git -C /repo status --porcelain", shell=True, capture_output=True, text=True).stdout.strip()
     assert not st or "--scratch" in sys.argv, "/repo not clean: " + st
